@@ -174,8 +174,11 @@ func (m *MsgReplyNextTx) UnmarshalCBOR(data []byte) error {
 	if _, err := cbor.Decode(data, &tmp); err != nil {
 		return err
 	}
-	if len(tmp) == 0 {
-		return nil
+	if len(tmp) < 1 || len(tmp) > 2 {
+		return fmt.Errorf(
+			"MsgReplyNextTx must have 1 or 2 elements, got %d",
+			len(tmp),
+		)
 	}
 	messageType64, ok := tmp[0].(uint64)
 	if !ok {
